@@ -505,6 +505,14 @@ class StmtMixin:
                 self.bodies.append((cname + '__stub', f'#ifdef CXX_STUB_{cname}\n{sig}\n{stub}#endif\n'))
             return info
         info['has_body'] = True
+        def local_records(n):
+            # record types declared inside the function body are not in the name index: register them by their plain name
+            if n.get('kind') == 'CXXRecordDecl' and n.get('completeDefinition') and n.get('name') and n.get('id') not in self.ix.qname:
+                self.ix.qname[n['id']] = n['name']
+                self.ix.defs.setdefault(n['name'], []).append(n)
+            for c in n.get('inner', []):
+                local_records(c)
+        local_records(body(decl))
         if self.spec.options.get('ast_errors') == 'tolerate':
             def no_errors(n):
                 if n.get('containsErrors') or n.get('kind') == 'RecoveryExpr':
